@@ -5,7 +5,7 @@ J=${1:-3}
 cd /verif
 run() {
   d=$1; id=$(basename $d)
-  prop=$(python3 -c "import json;print(json.load(open('$d/meta.json'))['breaks_property'].split(',')[0].strip())")
+  prop=$(python3 -c "import json;print(json.load(open('$d/meta.json'))['breaks_property'][:3])")
   out=$(python3 tools/eval_patch.py $d/patch.diff --props $prop --jobs 1 2>&1)
   ec=$(echo "$out" | grep -o "exit=[0-9]*" | head -1)
   v=$(echo "$out" | grep -c VIOLATION)
